@@ -141,7 +141,8 @@ def c13_apia_dateutil(case, observed, expected):
 
 
 def c12_cross_order(case, observed, expected):
-    """pytz provider, a definition whose onsets are ordered differently in local time and in UTC (zone family A/B/C of
-    MC_VTimezone!CrossZones), and the object answered exactly what the get_transitions + bisect mirror answers"""
+    """a definition whose onsets are ordered differently in local time and in UTC (zone family A/B of
+    MC_VTimezone!CrossZones), and the object answered exactly what the get_transitions + bisect mirror answers
+    (observed under both providers: dateutil's tzical also compares wall times)"""
     z = case.get("zone") or []
-    return (case.get("provider") == "pytz" and [o["name"] for o in z] == ["A", "B", "C"] and bool(case.get("impl_equal")))
+    return [o["name"] for o in z] == ["A", "B"] and bool(case.get("impl_equal"))
